@@ -7,10 +7,13 @@ import (
 	"bytes"
 	"context"
 	"fmt"
+	"strings"
 
 	"github.com/sourcegraph/zoekt"
 	"github.com/sourcegraph/zoekt/index"
 	"github.com/sourcegraph/zoekt/query"
+
+	"verifharness/gen"
 )
 
 // memFile is an index.IndexFile over a byte slice.
@@ -58,4 +61,15 @@ func Search(s zoekt.Searcher, q query.Q, chunks bool, ctx int) (res *zoekt.Searc
 		}
 	}()
 	return s.Search(context.Background(), q, &zoekt.SearchOptions{ChunkMatches: chunks, NumContextLines: ctx})
+}
+
+// Guard runs f; a panic of the code under test becomes a failing Go-oracle case (with its replay detail) instead of
+// killing the harness.
+func Guard(w interface{ Emit(gen.Case) }, class string, detail any, f func()) {
+	defer func() {
+		if r := recover(); r != nil {
+			w.Emit(gen.Case{Go: fmt.Sprintf("panic in %s: %v", class, r), Key: strings.SplitN(class, "/", 2)[0] + "-panic", Class: class, Detail: gen.Detail(detail)})
+		}
+	}()
+	f()
 }
